@@ -146,6 +146,7 @@ def fam_chain(rng, pid, count, targets=("SMA", "EMA", "RMA", "WMA", "HMA"), reve
                           rng.randint(16, 24),
                           rng.choice(["mixed", "walk", "decimal", "flat_then_walk", "zerovol_then_walk"]),
                           twins=twins, tf=None)
+        sc["names_fixed"] = True
         if reverse:
             # the consumer is calculated before its source: what it then shows is not a property's
             # business, only that it never changes afterwards (C02)
@@ -242,7 +243,33 @@ TZS = ["UTC", "Asia/Kolkata", "Asia/Kathmandu", "America/New_York", "Europe/Lond
        "Australia/Lord_Howe", "Pacific/Chatham", "America/St_Johns"]
 
 
+FORMS = ["candle", "candle", "candle", "dict", "list", "list_ts_last", "dict_iso", "dict_cap", "candle_iso"]
+
+
+def decorate(rng, scs):
+    """cross-cutting variation applied to every family: how the caller spells things must not
+    matter -- input encoding of the candles, spelling of the timeframe (upper / lower case / enum),
+    a user label on the indicator name (possibly with a dot)"""
+    for sc in scs:
+        if sc["obj"] not in ("ind", "hex"):
+            continue
+        if "form" not in sc or sc.get("form") == "candle":
+            if rng.random() < 0.35:
+                sc["form"] = rng.choice(FORMS)
+        for c in sc["inds"] + sc.get("late", []):
+            if c.timeframe and "_tf_form" not in c.extra and rng.random() < 0.3:
+                c.extra = dict(c.extra, _tf_form=rng.choice(["lower", "enum"]))
+            if (not sc.get("names_fixed") and c.kind != "Amorph" and "name_suffix" not in c.extra
+                    and "fullname_override" not in c.extra and rng.random() < 0.08):
+                c.extra = dict(c.extra, name_suffix=rng.choice(["x", "v1.5", "b", "a.b"]))
+    return scs
+
+
 def scenarios(pid, tier, rng):
+    return decorate(rng, _scenarios(pid, tier, rng))
+
+
+def _scenarios(pid, tier, rng):
     q = tier == "quick"
     k = (lambda a, b: a if q else b)
     if pid == "C04":
@@ -426,6 +453,7 @@ def fam_maintenance(rng, pid, count):
                   "twins": ["final_batch"], "member_forms": ["obj"] * len(cfgs),
                   "clause_props": {"exc": ["C14"], "batch": ["C14"], "value": ["C14"]}}
             ops = MAINT_OPS
+        sc["names_fixed"] = True
         out.append(grow_program(rng, sc, n, rng.randint(5, 10), ops))
     return out
 
@@ -458,6 +486,7 @@ def fam_readd(rng, pid, count):
         prog += [("add", 2, rng.choice(["obj", "dict"])), ("append", pos + 1, n), ("calculate", "")]
         regular = tf_regular(rng, tf)
         out.append({"id": f"{pid}/readd/{tf}/{t}", "fam": "maint", "obj": "hex", "inds": [a, b], "late": [c],
+                    "names_fixed": True,
                     "hex": {}, "stream": make_stream(rng, n, "mixed", tf=tf, regular=regular), "prog": prog,
                     "twins": ["final_batch"], "member_forms": ["obj", "obj"],
                     "clause_props": {"exc": ["C14"], "batch": ["C14"], "value": ["C14"], "stage": ["C14"],
@@ -517,6 +546,7 @@ def fam_interference(rng, pid, count):
             prog.append(("remove", victim))
         prog.append(("append", a + 1, n))
         out.append({"id": f"{pid}/pair/{'+'.join(names)}/{t}", "fam": "interf", "obj": "hex", "inds": cfgs,
+                    "names_fixed": True,
                     "hex": {}, "stream": make_stream(rng, n, "mixed", tf=tf), "prog": prog,
                     "twins": ["alone", "reorder"] if not removed else ["alone"],
                     "member_forms": ["obj"] * len(cfgs),
@@ -596,6 +626,7 @@ def fam_reads(rng, pid, count, forms=("candle",), touches=True):
         st = make_stream(rng, n, style, tf=tf, regular=regular)
         pre, chunks = compositions(rng, n, (0, 1, 3), 3)
         sc = {"id": f"{pid}/{'hex' if hexobj else 'ind'}/{'+'.join(kinds)}/{form}/{t}", "fam": "reads",
+              "names_fixed": True,
               "obj": "hex" if hexobj else "ind", "inds": cfgs, "hex": {}, "stream": st, "form": form,
               "twins": [], "member_forms": ["obj"] * len(cfgs), "single_unwrapped": rng.random() < 0.5,
               "clause_props": {"exc": [pid], "stage": ["C19"], "def": ["C19"], "sideeffect": ["C19"],
@@ -677,7 +708,8 @@ def fam_work(rng, pid, count):
             side, style = rng.choice([(".short", "up"), (".long", "down")])
             cfgs = [st_cfg, IndCfg("Amorph", fn=rng.choice(["highest", "lowest", "value_range", "rising"]),
                                    inp=live + side, p=rng.randint(2, 5))]
-            sc = {"id": f"{pid}/none/{t}", "obj": "hex", "inds": cfgs, "hex": {}, "member_forms": ["obj"] * len(cfgs)}
+            sc = {"id": f"{pid}/none/{t}", "obj": "hex", "inds": cfgs, "hex": {}, "member_forms": ["obj"] * len(cfgs),
+                  "names_fixed": True}
             tf = None
         elif hexobj:
             cfgs = _uniq([rand_cfg(rng, k) for k in rng.sample(kinds, 4)])
@@ -1031,4 +1063,5 @@ def fam_amorph(rng, pid, count, twins=("batch",)):
             out.append(sc)
     for sc in out:
         sc["clause_props"] = dict(sc.get("clause_props", {}), exc=[pid])
+        sc["names_fixed"] = True
     return out
